@@ -10,6 +10,7 @@ import Rl4co.Gen.Mtvrp
 import Rl4co.Gen.Atsp
 import Rl4co.Gen.Sched
 import Rl4co.Gen.Persist
+import Rl4co.Generated.GenMtvrpTw
 namespace Rl4co.Driver.Gen
 open Rl4co.Proto Rl4co.Gen
 
@@ -96,6 +97,19 @@ def mtvrptw (toks : List String) : Option String := do
               d := mkRat dn dd, us := mkRat usn usd, ul := mkRat uln uld, ut := mkRat utn utd } : Mtvrp.TwIn)
     | _ => none)
   let f := fun (r : Mtvrp.TwIn) => s!"{ratStr (Mtvrp.twStart r)}:{ratStr (Mtvrp.twEnd r)}:{ratStr (Mtvrp.service r)}"
+  pure s!"tw={",".intercalate (rows.map f)}"
+
+/-- `gen.mtvrptwgen Tn Td vn vd | dn dd usn usd uln uld utn utd | …` → start, end, service of the *generated* definition
+(`Generated/GenMtvrpTw.lean: twGen`, translated from the source statements; constants a, b, c are the source's) -/
+def mtvrptwgen (toks : List String) : Option String := do
+  let hd :: cs ← parseSections toks | none
+  let [Tn, Td, vn, vd] := hd | none
+  let rows ← cs.mapM (fun c => match c with
+    | [dn, dd, usn, usd, uln, uld, utn, utd] =>
+      some ({ a := 0, b := 0, c := 0, T := mkRat Tn Td, v := mkRat vn vd,
+              d := mkRat dn dd, us := mkRat usn usd, ul := mkRat uln uld, ut := mkRat utn utd } : Mtvrp.TwIn)
+    | _ => none)
+  let f := fun (r : Mtvrp.TwIn) => let g := Mtvrp.Generated.twGen r; s!"{ratStr g.1}:{ratStr g.2.1}:{ratStr g.2.2}"
   pure s!"tw={",".intercalate (rows.map f)}"
 
 def keepStr (k : Mtvrp.Keep) : String := bitsStr [k.o, k.tw, k.l, k.b]
@@ -201,11 +215,29 @@ def loaddemand (toks : List String) : Option String := do
   let [cn, cd] := hd | none
   pure s!"demand={",".intercalate ((Persist.loadDemand ds (cn, cd.toNat)).map fracStr)}"
 
+/-- `gen.loadrows | capNum capDen d… | capNum capDen d… | …` → per row the normalised demands (`Persist.loadRows`) -/
+def loadrows (toks : List String) : Option String := do
+  let _ :: rs ← parseSections toks | none
+  let rows ← rs.mapM (fun r => match r with
+    | cn :: cd :: ds => some (ds, ((cn, cd.toNat) : Frac))
+    | _ => none)
+  let out := Persist.loadRows rows
+  pure s!"rows={";".intercalate (out.map (fun r => ",".intercalate (r.map fracStr)))}"
+
+/-- `gen.npzbatch | shape… | shape… | …` (one section per stored array, in file order) → the batch size
+`load_npz_to_tensordict` derives, or `err=1` -/
+def npzbatch (toks : List String) : Option String := do
+  let _ :: ss ← parseSections toks | none
+  match Persist.npzBatch (ss.map natsOf) with
+  | none => pure "err=1"
+  | some b => pure s!"err=0 batch={b}"
+
 def handlers : List (String × (List String → Option String)) :=
   [("gen.aff", aff), ("gen.tbl", tbl), ("gen.cvrp", cvrp), ("gen.opprize", opprize), ("gen.pctsp", pctsp),
-   ("gen.cvrptw", cvrptw), ("gen.mtvrpcap", mtvrpcap), ("gen.mtvrpdem", mtvrpdem), ("gen.mtvrptw", mtvrptw),
+   ("gen.cvrptw", cvrptw), ("gen.mtvrpcap", mtvrpcap), ("gen.mtvrpdem", mtvrpdem), ("gen.mtvrptw", mtvrptw), ("gen.mtvrptwgen", mtvrptwgen),
    ("gen.keep", keep), ("gen.atsp", atsp), ("gen.ops", ops), ("gen.fjspcol", fjspcol), ("gen.jsspcol", jsspcol),
    ("gen.mcpclamp", mcpclamp), ("gen.mcprow", mcprow), ("gen.fjspwrite", fjspwrite), ("gen.fjspread", fjspread),
-   ("gen.jsspwrite", jsspwrite), ("gen.jsspread", jsspread), ("gen.loaddemand", loaddemand)]
+   ("gen.jsspwrite", jsspwrite), ("gen.jsspread", jsspread), ("gen.loaddemand", loaddemand),
+   ("gen.loadrows", loadrows), ("gen.npzbatch", npzbatch)]
 
 end Rl4co.Driver.Gen
